@@ -215,7 +215,9 @@ def plant(rows: List[Dict], i: int, kind: str, margin: float = 2.0, early: bool 
         r.update(open=o, close=c, high=round(c + 3 * margin * b + hl, 2), low=o)
     elif kind == "dojistar":
         # long positive previous candle, then a gap up doji
+        # "long" is judged against the average body of the previous candle and the nine before it
         po = prev["open"]
+        body = max(body, sum(abs(x["open"] - x["close"]) for x in rows[max(0, i - 10):i - 1]) / 9)
         pc = round(po + margin * 3 * body + 0.5, 2)
         prev.update(close=pc, high=max(prev["high"], pc), low=min(prev["low"], po))
         o = round(pc + 0.5, 2)
